@@ -99,7 +99,9 @@ struct Scenario {
         // a cookie-less reply is only illegitimate once this server has proven cookie support (an accepted reply carried a valid server cookie),
         // and only the first one is certain to fall inside the regression period
         // ... i.e. the regression timer is not running: no cookie-less reply since the last accepted valid-cookie reply
-        int64_t last_valid = -1; for (auto &kv : s.reqs) if (kv.second.calls > 0) for (uint32_t ser : kv.second.serials) for (auto &p : w.provs) if (p.serial == ser && p.genuine && p.server == tx.server && p.carried_server_cookie) last_valid = std::max(last_valid, kv.second.t_end);
+        // (support is proven by an accepted reply only if cookies were still in play for the accepting query: after an EDNS downgrade replies are matched without looking at cookies)
+        auto in_play = [&](const Prov &p, int64_t until) { if (p.tx == (size_t)-1 || p.tx >= w.txs.size()) return false; const Tx &t0 = w.txs[p.tx]; const Tx *last = nullptr; for (auto &t2 : w.txs) if (t2.qid == t0.qid && t2.qname_lower == t0.qname_lower && t2.qtype == t0.qtype && t2.t <= until) last = &t2; return last && last->has_cookie && !last->tcp; };
+        int64_t last_valid = -1; for (auto &kv : s.reqs) if (kv.second.calls > 0) for (uint32_t ser : kv.second.serials) for (auto &p : w.provs) if (p.serial == ser && p.genuine && p.server == tx.server && p.carried_server_cookie && in_play(p, kv.second.t_end)) last_valid = std::max(last_valid, kv.second.t_end);
         auto lc = last_cookieless.find(tx.server);
         if (last_valid < 0 || (lc != last_cookieless.end() && lc->second >= last_valid)) { s.notes.push_back("inject nocookie: support not proven or regression timer may be running"); return; }
         // (a genuine reply without a cookie - e.g. FORMERR without OPT - starts the timer just as well)
@@ -111,6 +113,7 @@ struct Scenario {
     Prov pv; Tx ftx = tx; std::string saved_mode; bool cookie_forgery = kind == "nocookie" || kind == "badclientcookie";
     if (cookie_forgery && tx.server >= 0) { saved_mode = w.servers[(size_t)tx.server].cookie_mode; w.servers[(size_t)tx.server].cookie_mode = kind == "nocookie" ? "none" : "wrongclient"; }
     int fo = what.empty() ? (int)O_ANSWER : outcome_from_name(what); if (fo != O_SERVFAIL && fo != O_REFUSED && fo != O_NOTIMP && fo != O_FORMERR && fo != O_NXDOMAIN) fo = O_ANSWER;
+    if (fo == O_FORMERR && kind == "badclientcookie") fo = O_FORMERR_OPT;   // a FORMERR without OPT carries no cookie that could be wrong
     Bytes reply = w.build_reply(ftx, (Outcome)fo, pv, true, forgery);
     if (cookie_forgery && tx.server >= 0) w.servers[(size_t)tx.server].cookie_mode = saved_mode;
     pv.genuine = false; pv.forgery = forgery; pv.fd = target->fd; pv.txs_at_injection = w.txs.size(); w.provs.push_back(pv);
@@ -280,7 +283,7 @@ struct Scenario {
         }
         if (!p.genuine) fail(r, "C05.forged-data-delivered." + p.forgery, "request " + std::to_string(q.id) + " (" + q.kind + ") was answered with data from a " + p.forgery + " packet (serial " + std::to_string(ser) + ")");
         else if (!p.cookie_valid) {
-          const Tx *last = nullptr; for (auto &t : w.txs) if (t.req == q.id && t.seq < q.tx_at_end) last = &t;
+          const Tx *last = nullptr; if (p.tx != (size_t)-1 && p.tx < w.txs.size()) { const Tx &t0 = w.txs[p.tx]; for (auto &t : w.txs) if (t.qid == t0.qid && t.qname_lower == t0.qname_lower && t.qtype == t0.qtype && t.seq < q.tx_at_end) last = &t; }
           if (last && (!last->has_cookie || last->tcp)) r.counters["c05.cookie_forgery_moot"]++;   // the current transmission asks for no cookie
           else fail(r, "C05.cookie-invalid-delivered", "request " + std::to_string(q.id) + " accepted a reply whose client cookie does not match the one sent");
         }
@@ -597,6 +600,7 @@ struct Scenario {
         for (const Prov *p : seq) { const Tx &t = w.txs[p->tx]; bool valid = p->carried_server_cookie && p->cookie_valid;
           if (valid && t.has_cookie) { supported = true; t0 = -1; continue; }
           if (!t.has_cookie) continue;                      // cookies not in play for this exchange
+          if (!p->cookie_valid || p->carried_server_cookie) { simple = false; break; }   // a reply with a *wrong* cookie is dropped as spoofed at any time and starts no timer: only truly cookie-less replies are in this clause
           if (!supported) continue;
           if (t0 < 0) { t0 = delivered_at[p->serial]; continue; }
           // a later cookie-less reply: was its query sent after the period had passed?
